@@ -43,6 +43,10 @@ def make(kind, mode="min", seed=0, R=4, mra=True, space=None, metric="m", allow_
     so = shared("so", so)
     info = dict(metric=metric, resource_attr="epoch", mra=None, metrics=None)
     base_space = dict(space) if space is not None else {"a": uniform(0, 1), "b": randint(0, 9)}
+    if kw.pop("quant_space", False):
+        # quantized domains wrap an inner sampler (one more hop for the seeded generator)
+        from syne_tune.config_space import quniform, qrandint, qloguniform
+        base_space = {"a": quniform(0, 1, 0.05), "b": qrandint(0, 8, 2), "c": qloguniform(0.01, 1.0, 0.01)}
     if kw.get("int_space"):
         base_space = {"a": randint(0, kw.pop("int_space") - 1)}   # a small finite space (JSON-able configuration key)
     if kind.startswith("fifo"):
